@@ -125,19 +125,18 @@ theorem treeG_appendAfter {t : ObjectTree} (h : TreeG t) {obj arg nextTo : Nat} 
 
 /-! ## the state invariant and the run lemmas of the primitives -/
 
-/-- invariant of the parser state during the first pass (skip mode) -/
+/-- invariant of the parser state while objects are parsed (either mode) -/
 structure FP (d : Bytes) (s : PState) : Prop where
   inv : Inv d s.r
   tree : TreeG s.tree
   scopes : ∀ x ∈ s.scopeStack.toList, live s.tree x = true
-  skip : s.allBlocks = false
 
 theorem FP.withR {d : Bytes} {s : PState} (h : FP d s) {r' : Reader} (hr : Inv d r') : FP d { s with r := r' } :=
-  ⟨hr, h.tree, h.scopes, h.skip⟩
+  ⟨hr, h.tree, h.scopes⟩
 
 theorem FP.withTree {d : Bytes} {s : PState} (h : FP d s) {t' : ObjectTree} (ht : TreeG t')
     (hl : ∀ x, live s.tree x = true → live t' x = true) : FP d { s with tree := t' } :=
-  ⟨h.inv, ht, fun x hx => hl x (h.scopes x hx), h.skip⟩
+  ⟨h.inv, ht, fun x hx => hl x (h.scopes x hx)⟩
 
 theorem lex_step {α : Type} {d : Bytes} {x : LexM α} {R : Reader → α → Reader → Prop} (hx : LexRel d x R)
     {s : PState} (h : FP d s) :
@@ -210,7 +209,7 @@ theorem pay_grow {obj : Nat} {s s' : PState} (h : PayOnly obj s s') : Grow 0 0 s
 /-- FP is preserved by a payload-only step that keeps the table index of `obj` valid -/
 theorem FP.payOnly {d : Bytes} {obj : Nat} {s s' : PState} (h : FP d s) (hp : PayOnly obj s s') (hi : Inv d s'.r)
     (hinfo : live s.tree obj = true → InfoOK (slot s'.tree obj).infoIndex) : FP d s' := by
-  refine ⟨hi, ⟨wf_of_sameLinks h.tree.wf hp.links, ?_, by rw [hp.links.live]; exact h.tree.root⟩, ?_, by rw [hp.same.1]; exact h.skip⟩
+  refine ⟨hi, ⟨wf_of_sameLinks h.tree.wf hp.links, ?_, by rw [hp.links.live]; exact h.tree.root⟩, ?_⟩
   · intro x hx
     have hx' : live s.tree x = true := by rw [← hp.links.live]; exact hx
     by_cases hxo : x = obj
@@ -226,7 +225,7 @@ theorem upd_step {d : Bytes} {s : PState} (h : FP d s) {obj : Nat} (ho : live s.
   have sl := sameLinks_setAt s.tree obj f hf hl
   refine ⟨_, updObj_ex f hlt, ?_, PayOnly.ofSetAt obj s f hf hl, ?_, rfl⟩
   · exact ⟨h.inv, treeG_setAt h.tree obj f hf hl (fun _ => hinfo),
-      fun x hx => by show live (setAt s.tree obj f) x = true; rw [sl.live]; exact h.scopes x hx, h.skip⟩
+      fun x hx => by show live (setAt s.tree obj f) x = true; rw [sl.live]; exact h.scopes x hx⟩
   · show slot (setAt s.tree obj f) obj = _
     rw [slot_setAt']; simp [hlt]
 
@@ -1236,7 +1235,7 @@ theorem pushPkgEnd_step {d : Bytes} {s : PState} (h : FP d s) (e : Nat) :
   have e0 : (modify fun s => { s with pkgEndStack := s.pkgEndStack.push e } : P Unit) s =
       .ok ((), { s with pkgEndStack := s.pkgEndStack.push e }) := rfl
   refine bind_ex e0 ?_
-  have h0 : FP d { s with pkgEndStack := s.pkgEndStack.push e } := ⟨h.inv, h.tree, h.scopes, h.skip⟩
+  have h0 : FP d { s with pkgEndStack := s.pkgEndStack.push e } := ⟨h.inv, h.tree, h.scopes⟩
   obtain ⟨b, s1, e1, h1, hR1, hs1⟩ := lex_step (rel_setPkgEnd d e) h0
   exact ⟨b, s1, e1, h1, hs1, hR1.1⟩
 
@@ -1345,7 +1344,7 @@ theorem newScopeBlock_tot {d : Bytes} {s : PState} (h : FP d s) (hsz : s.tree.po
   have f3 : Fresh1 n s s3 := f1.thenPay hp3
   have e4 : scopeEnter n s3 = .ok ((), { s3 with scopeStack := s3.scopeStack.push n }) := rfl
   refine bind_ex e4 (pure_ex ⟨?_, ?_, f3.nlive, f3.liven, f3.pn, by rw [← f3.scope], f3.pkg, by show s3.r = s.r; rw [hr3, hr1]⟩)
-  · refine ⟨h3.inv, h3.tree, ?_, h3.skip⟩
+  · refine ⟨h3.inv, h3.tree, ?_⟩
     intro x hx
     show live s3.tree x = true
     simp only [Array.toList_push, List.mem_append, List.mem_singleton] at hx
@@ -1420,7 +1419,7 @@ theorem Grow.absorb {c g : Nat} {s s1 s' : PState} (hs1 : s1 = { s with r := s1.
 
 /-- `parseNamePathOrMethodCall()` in the first pass: a `pOpIntNamePathOrMethodCall` object under the current scope -/
 theorem parseNamePathOrMethodCall_skip {d : Bytes} (hd : d.size + 268435456 ≤ 4294967296) (f : Nat) {s : PState} (h : FP d s)
-    (hne : s.scopeStack.size ≠ 0) (hb : Bud d 0 s) :
+    (hsk : s.allBlocks = false) (hne : s.scopeStack.size ≠ 0) (hb : Bud d 0 s) :
     ∃ res s', parseNamePathOrMethodCall d (f + 1) s = .ok (res, s') ∧ FP d s' ∧ Grow 0 0 s s' ∧
       (res = .ok → s.r.offset < s'.r.offset) := by
   have hd' : d.size + 1024 ≤ 4294967296 := by omega
@@ -1440,8 +1439,8 @@ theorem parseNamePathOrMethodCall_skip {d : Bytes} (hd : d.size + 268435456 ≤ 
       · exact hlt
       · exact absurd (by rw [hf]; decide) hok
     refine bind_ex (allBlocks_ex s2) ?_
-    have hsk : s2.allBlocks = false := h2.skip
-    rw [hsk]
+    have hsk2 : s2.allBlocks = false := by rw [hs2]; exact hsk
+    rw [hsk2]
     have ht2 : s2.tree = s1.tree := by rw [hs2]
     have hb2 : Bud d 16 s2 := hb.consume ht2 hlt h2.inv.1
     have hne2 : s2.scopeStack.size ≠ 0 := by rw [hs2]; exact hne
@@ -1459,9 +1458,9 @@ def PrevOK (s : PState) (info curObj j : Nat) : Prop :=
 
 /-- total correctness of the mutually recursive functions with fuel `f` in the first pass -/
 structure FirstPassTot (d : Bytes) (f : Nat) : Prop where
-  target : ∀ {s : PState}, FP d s → Bud d 1 s → needT (d.size - s.r.offset) ≤ f →
+  target : ∀ {s : PState}, FP d s → s.allBlocks = false → Bud d 1 s → needT (d.size - s.r.offset) ≤ f →
     ∃ a s', parseTarget d f s = .ok (a, s') ∧ FP d s' ∧ Grow 1 0 s s' ∧ RetOK s s' a.1
-  arg : ∀ {s : PState} (info curObj argType : Nat), FP d s → live s.tree curObj = true → InfoOK info → Bud d 2 s →
+  arg : ∀ {s : PState} (info curObj argType : Nat), FP d s → s.allBlocks = false → live s.tree curObj = true → InfoOK info → Bud d 2 s →
     argType ≠ argTypeByteList →
     (argType = argTypeFieldList → C13.P s.tree curObj ≠ INV ∧ live s.tree (La s.tree curObj) = true ∧
       ∃ v, (slot s.tree (La s.tree curObj)).value = .u64 v) →
@@ -1472,19 +1471,19 @@ structure FirstPassTot (d : Bytes) (f : Nat) : Prop where
       (argType = argTypePkgLen → s'.scopeStack.size = s.scopeStack.size ∧
         (a.2 = .ok → s'.pkgEndStack.size = s.pkgEndStack.size + 1)) ∧
       (argType = argTypeTermArg ∨ argType = argTypeTermList → a.2 ≠ .ok)
-  args : ∀ {s : PState} (info curObj j : Nat), FP d s → live s.tree curObj = true → InfoOK info → rowFacts info = true →
+  args : ∀ {s : PState} (info curObj j : Nat), FP d s → s.allBlocks = false → live s.tree curObj = true → InfoOK info → rowFacts info = true →
     j ≤ argCnt info → Bud d (2 * (7 - j)) s → Att s info curObj → PrevOK s info curObj j →
     (1 ≤ j → argAt info (j - 1) ≠ argTypeTermArg) → needArgs (d.size - s.r.offset) j ≤ f →
     ∃ res s', parseArgs d f info curObj j s = .ok (res, s') ∧ FP d s' ∧ Grow (2 * (7 - j)) (AmlParser.G info j) s s'
-  objectArgs : ∀ {s : PState} (curObj : Nat), FP d s → live s.tree curObj = true →
+  objectArgs : ∀ {s : PState} (curObj : Nat), FP d s → s.allBlocks = false → live s.tree curObj = true →
     rowFacts (slot s.tree curObj).infoIndex = true → Att s (slot s.tree curObj).infoIndex curObj → Bud d 14 s →
     needOA (d.size - s.r.offset) ≤ f →
     ∃ res s', parseObjectArgs d f curObj s = .ok (res, s') ∧ FP d s' ∧ Grow 14 0 s s'
-  nextObject : ∀ {s : PState}, FP d s → s.scopeStack.size ≠ 0 → Bud d 0 s → needNext (d.size - s.r.offset) ≤ f →
+  nextObject : ∀ {s : PState}, FP d s → s.allBlocks = false → s.scopeStack.size ≠ 0 → Bud d 0 s → needNext (d.size - s.r.offset) ≤ f →
     ∃ res s', parseNextObject d f s = .ok (res, s') ∧ FP d s' ∧ Grow 0 0 s s' ∧ (res = .ok → s.r.offset < s'.r.offset)
 
 theorem target_step {d : Bytes} (hd : d.size + 268435456 ≤ 4294967296) {f : Nat} (ih : FirstPassTot d f) {s : PState}
-    (h : FP d s) (hb : Bud d 1 s) (hf : needT (d.size - s.r.offset) ≤ f + 1) :
+    (h : FP d s) (hsk : s.allBlocks = false) (hb : Bud d 1 s) (hf : needT (d.size - s.r.offset) ≤ f + 1) :
     ∃ a s', parseTarget d (f + 1) s = .ok (a, s') ∧ FP d s' ∧ Grow 1 0 s s' ∧ RetOK s s' a.1 := by
   have hd' : d.size + 1024 ≤ 4294967296 := by omega
   unfold parseTarget
@@ -1559,7 +1558,7 @@ theorem target_step {d : Bytes} (hd : d.size + 268435456 ≤ 4294967296) {f : Na
           have h1 := g4.off
           have h2' := h4.inv.1
           unfold needT at hf; unfold needOA needArgs needArg needT; omega
-        obtain ⟨res, s5, e5, h5, g5⟩ := ih.objectArgs (s := s4) n h4 hobj4 (by rw [hinfo4]; exact hrow)
+        obtain ⟨res, s5, e5, h5, g5⟩ := ih.objectArgs (s := s4) n h4 (by rw [g4.same.1, hs2]; exact hsk) hobj4 (by rw [hinfo4]; exact hrow)
           (Or.inr (by rw [hinfo4]; exact hnofl htop)) hb4 hfuel
         refine bind_ex e5 (pure_ex ⟨h5, ?_, ?_⟩)
         · have := Grow.absorb hs2 hlt (g4.trans g5) (by omega)
@@ -1572,7 +1571,7 @@ theorem target_step {d : Bytes} (hd : d.size + 268435456 ≤ 4294967296) {f : Na
       · exact pure_ex ⟨h2, g2.weaken (by omega) (by omega), fun a ha => by cases ha⟩
 
 theorem arg_step {d : Bytes} (hd : d.size + 268435456 ≤ 4294967296) {f : Nat} (ih : FirstPassTot d f) {s : PState}
-    (info curObj argType : Nat) (h : FP d s) (hc : live s.tree curObj = true) (hinfo : InfoOK info) (hb : Bud d 2 s)
+    (info curObj argType : Nat) (h : FP d s) (hsk : s.allBlocks = false) (hc : live s.tree curObj = true) (hinfo : InfoOK info) (hb : Bud d 2 s)
     (hnbl : argType ≠ argTypeByteList)
     (hfl : argType = argTypeFieldList → C13.P s.tree curObj ≠ INV ∧ live s.tree (La s.tree curObj) = true ∧
       ∃ v, (slot s.tree (La s.tree curObj)).value = .u64 v)
@@ -1635,7 +1634,7 @@ theorem arg_step {d : Bytes} (hd : d.size + 268435456 ≤ 4294967296) {f : Nat} 
           have hntl : argType ≠ argTypeTermList := by rcases hta with hq | hq <;> rw [hq] <;> decide
           rw [if_neg hntl]
           refine bind_ex (allBlocks_ex s) ?_
-          rw [h.skip]
+          rw [hsk]
           refine pure_ex ⟨h, (Grow.refl s).weaken (by omega) (by omega), fun x hx => (by cases hx), ?_, fun hq => absurd hq hpk,
             fun _ hq => by cases hq⟩
           intro hq; rcases hta with hq2 | hq2 <;> rw [hq2] at hq <;> cases hq
@@ -1645,7 +1644,7 @@ theorem arg_step {d : Bytes} (hd : d.size + 268435456 ≤ 4294967296) {f : Nat} 
             obtain ⟨a, s', e, h', g', hnl, hl', hpn, _, _, _⟩ := newScopeBlock_tot h (hb.mono (k' := 1) (by omega)).size_lt
             refine bind_ex e ?_
             refine bind_ex (allBlocks_ex s') ?_
-            rw [h'.skip]
+            rw [g'.same.1, hsk]
             refine pure_ex ⟨h', g'.weaken (by omega) (by omega), ?_, fun hq => (by rw [htl] at hq; cases hq),
               fun hq => absurd hq hpk, fun _ hq => by cases hq⟩
             intro x hx
@@ -1653,7 +1652,7 @@ theorem arg_step {d : Bytes} (hd : d.size + 268435456 ≤ 4294967296) {f : Nat} 
             exact ⟨hnl, hl', hpn⟩
           · rw [if_neg htl, if_neg htl]
             have hfuel : needT (d.size - s.r.offset) ≤ f := by unfold needArg at hf; omega
-            obtain ⟨a, s', e, h', g', hret⟩ := ih.target h (hb.mono (by omega)) hfuel
+            obtain ⟨a, s', e, h', g', hret⟩ := ih.target h hsk (hb.mono (by omega)) hfuel
             refine ⟨a, s', e, h', g'.weaken (by omega) (by omega), hret, ?_, fun hq => absurd hq hpk, ?_⟩
             · intro hq; rw [hq] at hsimple; exact absurd (by decide) hsimple
             · intro hq; rcases hq with hq | hq
@@ -1669,7 +1668,7 @@ theorem Grow.afterPkg {c1 c2 : Nat} {s s1 s' : PState} (g1 : Grow c1 0 s s1)
 
 
 theorem args_step {d : Bytes} {f : Nat} (ih : FirstPassTot d f) {s : PState}
-    (info curObj j : Nat) (h : FP d s) (hc : live s.tree curObj = true) (hinfo : InfoOK info) (hrow : rowFacts info = true)
+    (info curObj j : Nat) (h : FP d s) (hsk : s.allBlocks = false) (hc : live s.tree curObj = true) (hinfo : InfoOK info) (hrow : rowFacts info = true)
     (hj : j ≤ argCnt info) (hb : Bud d (2 * (7 - j)) s) (hatt : Att s info curObj) (hprev : PrevOK s info curObj j)
     (hpast : 1 ≤ j → argAt info (j - 1) ≠ argTypeTermArg) (hf : needArgs (d.size - s.r.offset) j ≤ f + 1) :
     ∃ res s', parseArgs d (f + 1) info curObj j s = .ok (res, s') ∧ FP d s' ∧ Grow (2 * (7 - j)) (AmlParser.G info j) s s' := by
@@ -1696,7 +1695,7 @@ theorem args_step {d : Bytes} {f : Nat} (ih : FirstPassTot d f) {s : PState}
       · exact absurd hq (noFL_at hno hj8)
     have hfuel : needArg (d.size - s.r.offset) ≤ f := by unfold needArgs at hf; omega
     obtain ⟨⟨a1, a2⟩, s1, e1, h1, g1, hret, hbd, hpkl, hstop⟩ :=
-      ih.arg info curObj (argAt info j) h hc hinfo (hb.mono (by omega)) hnbl hfl hfuel
+      ih.arg info curObj (argAt info j) h hsk hc hinfo (hb.mono (by omega)) hnbl hfl hfuel
     refine bind_ex e1 ?_
     dsimp only at hret hbd hpkl hstop ⊢
     have hc1 : live s1.tree curObj = true := g1.oldLive _ hc
@@ -1739,7 +1738,7 @@ theorem args_step {d : Bytes} {f : Nat} (ih : FirstPassTot d f) {s : PState}
           exact hstop (Or.inl hq) hok
         have hfuel2 : needArgs (d.size - s2.r.offset) (j + 1) ≤ f :=
           needArgs_next hf (Nat.sub_le_sub_left g2.off _) hj8
-        obtain ⟨res, s3, e3, h3, g3⟩ := ih.args info curObj (j + 1) h2 hc2 hinfo hrow (by omega) hb2 hatt2 hprev2 hpast2 hfuel2
+        obtain ⟨res, s3, e3, h3, g3⟩ := ih.args info curObj (j + 1) h2 (by rw [g2.same.1]; exact hsk) hc2 hinfo hrow (by omega) hb2 hatt2 hprev2 hpast2 hfuel2
         refine ⟨res, s3, e3, h3, ?_⟩
         have hcc : 2 + 2 * (7 - (j + 1)) = 2 * (7 - j) := by omega
         by_cases hG1 : 1 ≤ j + 1 ∧ tlFrom info (j + 1) = true
@@ -1780,7 +1779,7 @@ theorem args_step {d : Bytes} {f : Nat} (ih : FirstPassTot d f) {s : PState}
     exact pure_ex ⟨h, (Grow.refl s).weaken (Nat.zero_le _) (Nat.zero_le _)⟩
 
 theorem objectArgs_step {d : Bytes} {f : Nat} (ih : FirstPassTot d f) {s : PState} (curObj : Nat) (h : FP d s)
-    (hc : live s.tree curObj = true) (hrow : rowFacts (slot s.tree curObj).infoIndex = true)
+    (hsk : s.allBlocks = false) (hc : live s.tree curObj = true) (hrow : rowFacts (slot s.tree curObj).infoIndex = true)
     (hatt : Att s (slot s.tree curObj).infoIndex curObj) (hb : Bud d 14 s) (hf : needOA (d.size - s.r.offset) ≤ f + 1) :
     ∃ res s', parseObjectArgs d (f + 1) curObj s = .ok (res, s') ∧ FP d s' ∧ Grow 14 0 s s' := by
   unfold parseObjectArgs
@@ -1808,14 +1807,14 @@ theorem objectArgs_step {d : Bytes} {f : Nat} (ih : FirstPassTot d f) {s : PStat
             rw [hfl]
             refine bind_ex (optP_ex fl s) ?_
             have hfuel : needArgs (d.size - s.r.offset) 0 ≤ f := by unfold needOA at hf; omega
-            obtain ⟨res, s', e, h', g'⟩ := ih.args (slot s.tree curObj).infoIndex curObj 0 h hc hinfo hrow (Nat.zero_le _)
+            obtain ⟨res, s', e, h', g'⟩ := ih.args (slot s.tree curObj).infoIndex curObj 0 h hsk hc hinfo hrow (Nat.zero_le _)
               (hb.mono (by omega)) hatt (fun h0 => by omega) (fun h0 => by omega) hfuel
             rw [AmlParser.G_zero] at g'
             refine bind_ex e ?_
             exact pure_ex ⟨h', g'.weaken (by omega) (Nat.le_refl _)⟩
 
 theorem nextObject_step {d : Bytes} (hd : d.size + 268435456 ≤ 4294967296) {f : Nat} (ih : FirstPassTot d f) {s : PState}
-    (h : FP d s) (hne : s.scopeStack.size ≠ 0) (hb : Bud d 0 s) (hf : needNext (d.size - s.r.offset) ≤ f + 1) :
+    (h : FP d s) (hsk : s.allBlocks = false) (hne : s.scopeStack.size ≠ 0) (hb : Bud d 0 s) (hf : needNext (d.size - s.r.offset) ≤ f + 1) :
     ∃ res s', parseNextObject d (f + 1) s = .ok (res, s') ∧ FP d s' ∧ Grow 0 0 s s' ∧
       (res = .ok → s.r.offset < s'.r.offset) := by
   have hd' : d.size + 1024 ≤ 4294967296 := by omega
@@ -1837,7 +1836,7 @@ theorem nextObject_step {d : Bytes} (hd : d.size + 268435456 ≤ 4294967296) {f 
       | zero => unfold needNext needOA needArgs needArg needT at hf; omega
       | succ f' => exact ⟨f', rfl⟩
     rw [hf']
-    exact parseNamePathOrMethodCall_skip hd f' h hne hb
+    exact parseNamePathOrMethodCall_skip hd f' h hsk hne hb
   · have g2 : Grow 0 0 s1 s2 := Grow.ofLex hs2 (by omega)
     by_cases hnoop : opr.1 = opNoop
     · rw [if_pos hnoop]
@@ -1875,7 +1874,7 @@ theorem nextObject_step {d : Bytes} (hd : d.size + 268435456 ≤ 4294967296) {f 
         omega
       have hP : C13.P s6.tree n = sc := by rw [hP6, if_pos rfl]
       have hscne : sc ≠ INV := live_ne_INV h2.tree.wf.size_le hscs
-      obtain ⟨res, s7, e7, h7, g7⟩ := ih.objectArgs (s := s6) n h6 hobj6 (by rw [hinfo6]; exact hrow)
+      obtain ⟨res, s7, e7, h7, g7⟩ := ih.objectArgs (s := s6) n h6 (by rw [g6.same.1, hs2]; exact hsk) hobj6 (by rw [hinfo6]; exact hrow)
         (Or.inl (by rw [hP]; exact hscne)) hb6 hfuel
       have gfin := Grow.absorb hs2 hlt (g6.trans g7) (by omega)
       exact ⟨res, s7, e7, h7, gfin, fun _ => by have := g6.off; have := g7.off; omega⟩
@@ -1885,31 +1884,31 @@ theorem firstPassTot {d : Bytes} (hd : d.size + 268435456 ≤ 4294967296) (f : N
   induction f with
   | zero =>
     refine ⟨?_, ?_, ?_, ?_, ?_⟩
-    · intro s _ _ hf; unfold needT at hf; omega
-    · intro s _ _ _ _ _ _ _ _ _ hf; unfold needArg needT at hf; omega
-    · intro s _ _ j _ _ _ _ _ _ _ _ _ hf; unfold needArgs needArg needT at hf; omega
-    · intro s _ _ _ _ _ _ hf; unfold needOA needArgs needArg needT at hf; omega
-    · intro s _ _ _ hf; unfold needNext needOA needArgs needArg needT at hf; omega
+    · intro s _ _ _ hf; unfold needT at hf; omega
+    · intro s _ _ _ _ _ _ _ _ _ _ hf; unfold needArg needT at hf; omega
+    · intro s _ _ j _ _ _ _ _ _ _ _ _ _ hf; unfold needArgs needArg needT at hf; omega
+    · intro s _ _ _ _ _ _ _ hf; unfold needOA needArgs needArg needT at hf; omega
+    · intro s _ _ _ _ hf; unfold needNext needOA needArgs needArg needT at hf; omega
   | succ f ih =>
-    exact ⟨fun h hb hf => target_step hd ih h hb hf,
-      fun info curObj argType h hc hinfo hb hnbl hfl hf => arg_step hd ih info curObj argType h hc hinfo hb hnbl hfl hf,
-      fun info curObj j h hc hinfo hrow hj hb hatt hprev hpast hf => args_step ih info curObj j h hc hinfo hrow hj hb hatt hprev hpast hf,
-      fun curObj h hc hrow hatt hb hf => objectArgs_step ih curObj h hc hrow hatt hb hf,
-      fun h hne hb hf => nextObject_step hd ih h hne hb hf⟩
+    exact ⟨fun h hsk hb hf => target_step hd ih h hsk hb hf,
+      fun info curObj argType h hsk hc hinfo hb hnbl hfl hf => arg_step hd ih info curObj argType h hsk hc hinfo hb hnbl hfl hf,
+      fun info curObj j h hsk hc hinfo hrow hj hb hatt hprev hpast hf => args_step ih info curObj j h hsk hc hinfo hrow hj hb hatt hprev hpast hf,
+      fun curObj h hsk hc hrow hatt hb hf => objectArgs_step ih curObj h hsk hc hrow hatt hb hf,
+      fun h hsk hne hb hf => nextObject_step hd ih h hsk hne hb hf⟩
 
 /-! ## `parseObjectList` -/
 
 
 /-- the inner loop of `parseObjectList` -/
 theorem objectListInner_tot {d : Bytes} (hd : d.size + 268435456 ≤ 4294967296) (fuel : Nat) :
-    ∀ (n : Nat) {s : PState}, FP d s → s.scopeStack.size ≠ 0 → Bud d 0 s → needNext (d.size - s.r.offset) ≤ fuel →
+    ∀ (n : Nat) {s : PState}, FP d s → s.allBlocks = false → s.scopeStack.size ≠ 0 → Bud d 0 s → needNext (d.size - s.r.offset) ≤ fuel →
       d.size - s.r.offset + 1 ≤ n →
       ∃ b s', objectListInner d fuel n s = .ok (b, s') ∧ FP d s' ∧ Grow 0 0 s s' := by
   intro n
   induction n with
-  | zero => intro s _ _ _ _ hn; omega
+  | zero => intro s _ _ _ _ _ hn; omega
   | succ n ih =>
-    intro s h hne hb hfuel hn
+    intro s h hsk hne hb hfuel hn
     unfold objectListInner
     obtain ⟨b, s1, e1, h1, hR1, hs1⟩ := lex_step (rel_eof d) h
     refine bind_ex e1 ?_
@@ -1919,13 +1918,13 @@ theorem objectListInner_tot {d : Bytes} (hd : d.size + 268435456 ≤ 4294967296)
     · rw [if_pos he]
       exact pure_ex ⟨h, Grow.refl s1⟩
     · rw [if_neg he]
-      obtain ⟨res, s2, e2, h2, g2, hprog⟩ := (firstPassTot hd fuel).nextObject h hne hb hfuel
+      obtain ⟨res, s2, e2, h2, g2, hprog⟩ := (firstPassTot hd fuel).nextObject h hsk hne hb hfuel
       refine bind_ex e2 ?_
       by_cases hok : res = .ok
       · rw [if_neg (by rw [hok]; decide)]
         have hlt := hprog hok
         have hi2 := h2.inv.1
-        obtain ⟨b3, s3, e3, h3, g3⟩ := ih h2 (by have := g2.sc; omega) (hb.step g2 hi2 (Nat.le_refl _))
+        obtain ⟨b3, s3, e3, h3, g3⟩ := ih h2 (by rw [g2.same.1]; exact hsk) (by have := g2.sc; omega) (hb.step g2 hi2 (Nat.le_refl _))
           (Nat.le_trans (needNext_mono (by omega)) hfuel) (by omega)
         exact ⟨b3, s3, e3, h3, g2.trans g3⟩
       · rw [if_pos hok]
@@ -1934,7 +1933,7 @@ theorem objectListInner_tot {d : Bytes} (hd : d.size + 268435456 ≤ 4294967296)
 /-- `popPkgEnd()` -/
 theorem popPkgEnd_step {d : Bytes} {s : PState} (h : FP d s) :
     ∃ (a : Unit) (s' : PState), popPkgEnd d s = .ok (a, s') ∧ FP d s' ∧ s'.tree = s.tree ∧ s'.scopeStack = s.scopeStack ∧
-      s'.pkgEndStack = s.pkgEndStack.pop ∧ s'.r.offset = s.r.offset := by
+      s'.pkgEndStack = s.pkgEndStack.pop ∧ s'.r.offset = s.r.offset ∧ s'.allBlocks = s.allBlocks := by
   unfold popPkgEnd
   have e0 : (modify fun s => if s.pkgEndStack.size ≠ 0 then { s with pkgEndStack := s.pkgEndStack.pop } else s : P Unit) s =
       .ok ((), { s with pkgEndStack := s.pkgEndStack.pop }) := by
@@ -1948,21 +1947,21 @@ theorem popPkgEnd_step {d : Bytes} {s : PState} (h : FP d s) :
         rw [this]; rfl
       rw [this]
   refine bind_ex e0 ?_
-  have h0 : FP d { s with pkgEndStack := s.pkgEndStack.pop } := ⟨h.inv, h.tree, h.scopes, h.skip⟩
+  have h0 : FP d { s with pkgEndStack := s.pkgEndStack.pop } := ⟨h.inv, h.tree, h.scopes⟩
   have e1 : pkgEndTop { s with pkgEndStack := s.pkgEndStack.pop } =
       .ok (s.pkgEndStack.pop.back?, { s with pkgEndStack := s.pkgEndStack.pop }) := rfl
   refine bind_ex e1 ?_
   cases s.pkgEndStack.pop.back? with
-  | none => exact pure_ex ⟨h0, rfl, rfl, rfl, rfl⟩
+  | none => exact pure_ex ⟨h0, rfl, rfl, rfl, rfl, rfl⟩
   | some e =>
     obtain ⟨b, s2, e2, h2, hR2, hs2⟩ := lex_step (rel_setPkgEnd d e) h0
     refine bind_ex e2 ?_
-    exact pure_ex ⟨h2, by rw [hs2], by rw [hs2], by rw [hs2], hR2.1⟩
+    exact pure_ex ⟨h2, by rw [hs2], by rw [hs2], by rw [hs2], hR2.1, by rw [hs2]⟩
 
 /-- `scopeExit()` with a non-empty scope stack -/
 theorem scopeExit_step {d : Bytes} {s : PState} (h : FP d s) (hne : s.scopeStack.size ≠ 0) :
     ∃ s', scopeExit s = .ok ((), s') ∧ FP d s' ∧ s' = { s with scopeStack := s.scopeStack.pop } := by
-  refine ⟨{ s with scopeStack := s.scopeStack.pop }, ?_, ⟨h.inv, h.tree, ?_, h.skip⟩, rfl⟩
+  refine ⟨{ s with scopeStack := s.scopeStack.pop }, ?_, ⟨h.inv, h.tree, ?_⟩, rfl⟩
   · unfold scopeExit
     rw [if_neg hne]; rfl
   · intro x hx
@@ -1973,15 +1972,15 @@ theorem scopeExit_step {d : Bytes} {s : PState} (h : FP d s) (hne : s.scopeStack
 
 /-- `parseObjectList()`: total, and the first-pass invariant holds at the end -/
 theorem parseObjectList_tot {d : Bytes} (hd : d.size + 268435456 ≤ 4294967296) (fuel : Nat) :
-    ∀ (n : Nat) {s : PState}, FP d s → Bud d 0 s → s.scopeStack.size ≤ s.pkgEndStack.size →
+    ∀ (n : Nat) {s : PState}, FP d s → s.allBlocks = false → Bud d 0 s → s.scopeStack.size ≤ s.pkgEndStack.size →
       needNext (d.size - s.r.offset) ≤ fuel → d.size - s.r.offset + 1 ≤ fuel →
       d.size - s.r.offset + s.pkgEndStack.size + 1 ≤ n →
       ∃ res s', parseObjectList d fuel n s = .ok (res, s') ∧ FP d s' := by
   intro n
   induction n with
-  | zero => intro s _ _ _ _ _ hn; omega
+  | zero => intro s _ _ _ _ _ _ hn; omega
   | succ n ih =>
-    intro s h hb hstk hfuel hfuel2 hn
+    intro s h hsk hb hstk hfuel hfuel2 hn
     unfold parseObjectList
     have e0 : stackSizes s = .ok ((s.pkgEndStack.size, s.scopeStack.size), s) := rfl
     refine bind_ex e0 ?_
@@ -1989,7 +1988,7 @@ theorem parseObjectList_tot {d : Bytes} (hd : d.size + 268435456 ≤ 4294967296)
     · rw [if_pos hz]
       exact pure_ex h
     · rw [if_neg hz]
-      obtain ⟨b, s1, e1, h1, g1⟩ := objectListInner_tot hd fuel fuel h hz hb hfuel hfuel2
+      obtain ⟨b, s1, e1, h1, g1⟩ := objectListInner_tot hd fuel fuel h hsk hz hb hfuel hfuel2
       refine bind_ex e1 ?_
       by_cases hbt : b = true
       · rw [hbt]
@@ -2003,29 +2002,30 @@ theorem parseObjectList_tot {d : Bytes} (hd : d.size + 268435456 ≤ 4294967296)
           have := g1.pkoff; have := g1.off; omega
         have hoff := g1.off
         -- what follows the optional `scopeExit`
-        have cont : ∀ s2 : PState, FP d s2 → s2.tree = s1.tree → s2.r = s1.r → s2.pkgEndStack = s1.pkgEndStack →
+        have hsk1 : s1.allBlocks = false := by rw [g1.same.1]; exact hsk
+        have cont : ∀ s2 : PState, FP d s2 → s2.allBlocks = false → s2.tree = s1.tree → s2.r = s1.r → s2.pkgEndStack = s1.pkgEndStack →
             s2.scopeStack.size + 1 ≤ s1.pkgEndStack.size →
             ∃ res s', (popPkgEnd d >>= fun _ => parseObjectList d fuel n) s2 = .ok (res, s') ∧ FP d s' := by
-          intro s2 h2 ht2 hr2 hpk2 hsc2
-          obtain ⟨_, s3, e3, h3, ht3, hsc3, hpk3, ho3⟩ := popPkgEnd_step h2
+          intro s2 h2 hsk2 ht2 hr2 hpk2 hsc2
+          obtain ⟨_, s3, e3, h3, ht3, hsc3, hpk3, ho3, hab3⟩ := popPkgEnd_step h2
           refine bind_ex e3 ?_
           have hpk3s : s3.pkgEndStack.size + 1 = s1.pkgEndStack.size := by
             rw [hpk3, hpk2]; simp only [Array.size_pop]; omega
           have ho31 : s3.r.offset = s1.r.offset := by rw [ho3, hr2]
           have hb3 : Bud d 0 s3 := by
             unfold Bud at hb1 ⊢; rw [ht3, ht2, ho31]; exact hb1
-          exact ih h3 hb3 (by rw [hsc3]; omega) (by rw [ho31]; exact Nat.le_trans (needNext_mono (by omega)) hfuel)
+          exact ih h3 (by rw [hab3]; exact hsk2) hb3 (by rw [hsc3]; omega) (by rw [ho31]; exact Nat.le_trans (needNext_mono (by omega)) hfuel)
             (by rw [ho31]; omega) (by rw [ho31]; omega)
         dsimp only
         split
         · rename_i heq
           obtain ⟨s2, e2', h2, hs2⟩ := scopeExit_step h1 hne1
           refine bind_ex e2' ?_
-          refine cont s2 h2 (by rw [hs2]) (by rw [hs2]) (by rw [hs2]) ?_
+          refine cont s2 h2 (by rw [hs2]; exact hsk1) (by rw [hs2]) (by rw [hs2]) (by rw [hs2]) ?_
           rw [hs2]; show s1.scopeStack.pop.size + 1 ≤ _
           simp only [Array.size_pop]; omega
         · rename_i hneq
-          exact cont s1 h1 rfl rfl rfl (by omega)
+          exact cont s1 h1 hsk1 rfl rfl rfl (by omega)
       · have hbf : b = false := by cases b <;> simp_all
         rw [hbf]
         exact pure_ex h1
@@ -2043,7 +2043,7 @@ theorem firstPass_tot {d : Bytes} (hd : d.size + 268435456 ≤ 4294967296) {s : 
   let s0 : PState := { s with tableHandle := handle, resolvePasses := 0, mergedScopes := 0, relocatedObjects := 0, allBlocks := false, scopeStack := #[], pkgEndStack := #[] }
   let s1 : PState := { s0 with r := Reader.init d headerLen, streamEnd := d.size }
   have h1 : FP d s1 := ⟨⟨by show (if headerLen > d.size then d.size else headerLen) ≤ d.size; split <;> omega, Nat.le_refl _⟩,
-    ht, fun x hx => (by cases hx), rfl⟩
+    ht, fun x hx => (by cases hx)⟩
   obtain ⟨b, s2, e2, h2, hs2, ho2⟩ := pushPkgEnd_step h1 d.size
   have e3 : scopeEnter 0 s2 = .ok ((), { s2 with scopeStack := s2.scopeStack.push 0 }) := rfl
   have hinit : ∃ (u : Unit) (s' : PState), init d handle s = .ok (u, s') ∧ s' = s2 := by
@@ -2060,14 +2060,14 @@ theorem firstPass_tot {d : Bytes} (hd : d.size + 268435456 ≤ 4294967296) {s : 
   have hsc2 : s2.scopeStack = #[] := by rw [hs2]
   have hpk2 : s2.pkgEndStack = #[d.size] := by rw [hs2]; rfl
   have h3 : FP d { s2 with scopeStack := s2.scopeStack.push 0 } := by
-    refine ⟨h2.inv, h2.tree, ?_, h2.skip⟩
+    refine ⟨h2.inv, h2.tree, ?_⟩
     intro x hx
     show live s2.tree x = true
     rw [hsc2] at hx
     simp at hx
     rw [hx]; exact h2.tree.root
   have hi := h2.inv.1
-  refine parseObjectList_tot hd fuel fuel h3 ?_ ?_ ?_ ?_ ?_
+  refine parseObjectList_tot hd fuel fuel h3 (by show s2.allBlocks = false; rw [hs2]) ?_ ?_ ?_ ?_ ?_
   · unfold Bud; show s2.tree.pool.size + 16 * (d.size - s2.r.offset) + 0 ≤ INV
     rw [ht2]; omega
   · show (s2.scopeStack.push 0).size ≤ s2.pkgEndStack.size
